@@ -12,6 +12,7 @@ import (
 	"github.com/mithrandie/csvq/lib/option"
 	"github.com/mithrandie/csvq/lib/parser"
 	"github.com/mithrandie/csvq/lib/value"
+	"github.com/mithrandie/csvq/lib/vhook"
 
 	"github.com/mithrandie/ternary"
 )
@@ -114,6 +115,7 @@ func evaluateSequentialRoutine(ctx context.Context, scope *ReferenceScope, view 
 		}
 	}()
 
+	vhook.Yield("eval.seq.start", thIdx)
 	start, end := gm.RecordRange(thIdx)
 	seqScope := scope.CreateScopeForSequentialEvaluation(
 		&View{
@@ -125,6 +127,7 @@ func evaluateSequentialRoutine(ctx context.Context, scope *ReferenceScope, view 
 
 	i := 0
 	for seqScope.NextRecord() {
+		vhook.Yield("eval.seq.row", thIdx)
 		if gm.HasError() {
 			break
 		}
